@@ -18,6 +18,7 @@ func checkC02(c *Ctx) {
 	r.Trusted = []string{"go/types, go/ssa"}
 
 	fo := c.checkFanoutCommon("C02.1")
+	c.checkNoPublishInsideFanout("C02.6", fo)
 	c.checkFanoutData("C02.1", fo)
 	c.checkPrepareMessage()
 	c.checkContentUnaltered()
